@@ -88,8 +88,24 @@ def boom(x: int) -> int:
 }
 
 
+def _suicide_watch(deadline: float) -> None:
+    """Never outlive the harness: when the parent process is gone (the check was killed) or the deadline has
+    passed, kill this process group (driver, workers, execution subprocesses)."""
+    parent = os.getppid()
+
+    def watch():
+        t0 = time.monotonic()
+        while True:
+            time.sleep(1.0)
+            if os.getppid() != parent or time.monotonic() - t0 > deadline:
+                os.killpg(os.getpgid(0), signal.SIGKILL)
+
+    threading.Thread(target=watch, daemon=True).start()
+
+
 def main() -> None:
     sc = json.loads(sys.argv[1])
+    _suicide_watch(float(sc.get("deadline", 3600)))
     base = Path(sc["dir"])
     proj, out, state = base / "proj", base / "out", base / "state"
     for d in (proj, out, state):
